@@ -364,6 +364,32 @@ static bool do_op(const std::vector<std::string> &op) {
   if (o == "consolemode") { g_console_mode = atoi(op[1].c_str()) != 0; MAIN_OPTION(console_mode) = g_console_mode; return false; }
   if (o == "noport") { external_port[0].port = 0; return false; }
   if (o == "call") { top_call(op); return false; }
+  if (o == "callreg") {   // callreg <registry name> <function>: a driver-origin apply on a scenario object
+    error_context_t econ;
+    if (!save_context(&econ)) return false;
+    emit("\"e\":\"Call\",\"origin\":\"driver\",\"name\":" + jstr(op[2]));
+    if (setjmp(econ.context)) {
+      restore_context(&econ);
+    } else {
+      eval_cost = CONFIG_INT(__MAX_EVAL_COST__);
+      object_t *reg = find_object_by_name("reg");
+      if (reg) {
+        copy_and_push_string(op[1].c_str());
+        svalue_t *r = apply("get", reg, 1, ORIGIN_DRIVER);
+        if (r && r->type == T_OBJECT && !(r->u.ob->flags & O_DESTRUCTED)) {
+          object_t *t = r->u.ob;
+          push_number(1);
+          static std::map<std::string, char *> lit;     // one stable pointer per name, like a C string literal
+          if (!lit.count(op[2])) lit[op[2]] = strdup(op[2].c_str());
+          apply(lit[op[2]], t, 1, ORIGIN_DRIVER);
+        }
+      }
+    }
+    pop_context(&econ);
+    current_object = 0; command_giver = 0;
+    emit("\"e\":\"CallDone\"");
+    return false;
+  }
   if (o == "note") { std::string s; for (size_t i = 1; i < op.size(); i++) { if (i > 1) s += " "; s += op[i]; } emit("\"e\":\"Note\",\"t\":" + jstr(s)); return false; }
   if (o == "backend") {
     g_in_backend = true;
